@@ -743,22 +743,6 @@ func (r *reader) GetOffset(id uint32) (offset int64, _ error) {
 
 // GetAttr returns file attribute of specified node.
 func (r *reader) GetAttr(id uint32) (attr metadata.Attr, _ error) {
-	if r.rootID == id { // no need to wait for root dir
-		if err := r.db.View(func(tx *bolt.Tx) error {
-			nodes, err := getNodes(tx, r.fsID)
-			if err != nil {
-				return fmt.Errorf("nodes bucket of %q not found for sarching attr %d: %w", r.fsID, id, err)
-			}
-			b, err := getNodeBucketByID(nodes, id)
-			if err != nil {
-				return fmt.Errorf("failed to get attr bucket %d: %w", id, err)
-			}
-			return readAttr(b, &attr)
-		}); err != nil {
-			return metadata.Attr{}, err
-		}
-		return attr, nil
-	}
 	if err := r.view(func(tx *bolt.Tx) error {
 		nodes, err := getNodes(tx, r.fsID)
 		if err != nil {
